@@ -191,7 +191,7 @@ def _char_table(h):
     """h: fn(&str) -> bool deciding on the first char by matching constants / is_ascii_digit. Returns a function
     ch -> set of possible results, or None when the shape is not understood."""
     try:
-        res = Enumerator(h, summaries=False, max_paths=2000).run()
+        res = Enumerator(h, summaries=False, max_paths=2000, track_cmp=True).run()
     except TooManyPaths:
         return None
     rows = []
@@ -200,6 +200,23 @@ def _char_table(h):
         if not (v0 and v0[0] == "const" and isinstance(v0[1], bool)):
             return None
         cons = [v for k, v in st.disc.items() if k.startswith("int:")]
+        # range patterns (`'0'..='9'`) compile to order comparisons against constants
+        for hk, hv in st.hist:
+            if hk == "cmp":
+                op_, a_, b_, out_ = hv
+                def _code(o):
+                    v = o.get("v")
+                    if isinstance(v, bool):
+                        return None
+                    if isinstance(v, int):
+                        return v
+                    if isinstance(v, str) and len(v) == 1:
+                        return ord(v)
+                    return None
+                if is_const(b_) and not is_const(a_) and _code(b_) is not None:
+                    cons.append(("cmp", op_, _code(b_), out_, False))
+                elif is_const(a_) and not is_const(b_) and _code(a_) is not None:
+                    cons.append(("cmp", op_, _code(a_), out_, True))
         digit = None
         for cb, dec in st.decisions.items():
             c = callee(h.blocks[cb]["term"])
@@ -221,6 +238,12 @@ def _char_table(h):
                     ok = False
                 if c[0] == "notint" and ord(ch) in c[1]:
                     ok = False
+                if c[0] == "cmp":
+                    _, op_, k_, out_, flipped = c
+                    x, y = (k_, ord(ch)) if flipped else (ord(ch), k_)
+                    holds = {"Lt": x < y, "Le": x <= y, "Gt": x > y, "Ge": x >= y, "Eq": x == y, "Ne": x != y}.get(op_)
+                    if holds is not None and holds != out_:
+                        ok = False
             if digit is not None and digit != (ch in "0123456789"):
                 ok = False
             if ok:
@@ -373,6 +396,14 @@ def rule_regex(ctx, prop):
                     elif prog.fn("stylua_lib", c) is not None and prog.fn("stylua_lib", c).locals[0] == "bool":
                         eqs["<pred>"] = dec
                         preds.add(("helper", c))
+                    elif re.search(r"Iterator>?::all$|iter::Iterator::all$", c) and len(t["args"]) > 1 and is_const(t["args"][1]) and \
+                            (t["args"][1].get("rfn") or t["args"][1].get("fn")) and \
+                            any(cc.endswith("<impl str>::chars") or cc.endswith("str::chars") for cc in prov_calls(provenance(cl, t["args"][0]))):
+                        # `text.chars().all(is_unnecessary_escape)`: the escaped text is one character
+                        fnp = t["args"][1].get("rfn") or t["args"][1]["fn"]
+                        if prog.fn("stylua_lib", fnp) is not None:
+                            eqs["<pred>"] = dec
+                            preds.add(("helper", fnp))
                 v0 = st.vals.get(0)
                 out = None
                 if v0 and v0[0] == "callres":
